@@ -387,7 +387,10 @@ impl PropertySet {
     pub fn set(&mut self, property_name: u32, property_value: PropertyValue) {
         if property_name == PROPERTY_CODEPAGE {
             if let PropertyValue::I2(codepage_id) = property_value {
-                if let Some(codepage) = CodePage::from_id(codepage_id as i32) {
+                // The ID is stored as a 16-bit value, so 65001 (UTF-8) is
+                // negative as an i16.
+                let codepage_id = codepage_id as u16 as i32;
+                if let Some(codepage) = CodePage::from_id(codepage_id) {
                     self.codepage = codepage;
                 }
             }
